@@ -148,6 +148,31 @@ def handler_family(depth):
     return out
 
 
+def insert_beyond_family(depth):
+    """Insert beyond top+1 (clamped class): whatever the list becomes, every index
+    1..top must hold a Lua value - also where the registers above top were cleared
+    by SetTop / a finished call (Go nil) or by Pop (LNil)."""
+    out = []
+    base = []
+    d = 1
+    for _ in range(depth - 1):
+        base.append({"op": "call", "prot": True, "args": [["n", 10 * d + 5]], "nret": -1})
+        d += 1
+    v = ["n", 10 * d + 3]
+    for n in range(3):
+        keep = [{"op": "push", "v": ["n", 10 * d + 1 + j]} for j in range(n)]
+        more = [{"op": "push", "v": ["n", 10 * d + 6 + j]} for j in range(3)]
+        for how, pre in (("fresh", keep), ("after-settop", keep + more + [{"op": "settop", "i": n}]),
+                         ("after-pop", keep + more + [{"op": "pop", "n": 3}]),
+                         ("after-call", keep + [{"op": "callL", "prot": False, "args": more and [m["v"] for m in more], "nret": 0,
+                                                 "p": 3, "fail": False}])):
+            for i in (n + 2, n + 3, n + 4):
+                out.append(base + pre + [{"op": "insert", "v": v, "i": i}, {"op": "gettop"}, {"op": "get", "i": n + 1},
+                                         {"op": "get", "i": -2}, {"op": "push", "v": v}, {"op": "remove", "i": 1},
+                                         {"op": "settop", "i": 0}])
+    return out
+
+
 def sweep_family(nret, heights, few_apis=False):
     """Height sweep across the first registry growth (RegistrySize 128): at every
     height a NON-vararg Lua callee with 4 named parameters and 10 registers gets
@@ -199,7 +224,9 @@ def stack_key(tr, v):
     if why == "list" and ["gonil"] in ev.get("list", []):
         # a Go nil interface where a Lua value (LNil) must be: its own class, whatever the operation's result otherwise is
         return "C10:stack:go-nil-value:%s" % op
-    if why in ("negative-read", "gettop", "hole"):
+    if why == "hole":               # a clamped-class operation left a Go nil inside the list
+        return "C10:stack:go-nil-value:%s" % op
+    if why in ("negative-read", "gettop"):
         return "C10:stack:%s" % why
     if why == "read":
         return "C10:stack:read:%s" % (op if op == "gettop" else "get:" + idx_class(ev, len(ev.get("list", []))))
@@ -379,6 +406,7 @@ def stack_part(tier, verd, stats, ev):
         fam += [close_history(h) for h in call_family(d)]
     for d in (1, 2, 3):
         fam += [close_history(h) for h in handler_family(d)]
+        fam += [close_history(h) for h in insert_beyond_family(d)]
     sets.append(("calls", fam))
     # height sweep for calls whose frame set-up grows the registry (grow steps 1, 7, 32)
     # (callee LocalBase = prefill + 15 under one Lua layer, + 27 under two: the window where
@@ -607,6 +635,7 @@ def obj_cases(world, names, tier, rng, w=1, cases=None):
             add("RawEqual", [a, b])
             add("LessThan", [a, b])
             add("Concat", [a, b])
+    add("Concat", [])       # no operands: the empty string, never something found on the caller's stack
     triples = [(a, b, c) for a in vals for b in vals for c in vals]
     if tier != "thorough":
         triples = rng.sample(triples, 1500)
@@ -687,7 +716,7 @@ def obj_key(world, rec, v):
         if op == "RawMetatable" and f:
             cls = "present"             # the raw metatable does not depend on the field's value
         kinds = ["__metatable=%s" % cls]
-    return "C10:obj:%s:%s:%s:%s" % (OP_GROUP.get(op, op), v["who"], v["why"], ",".join(kinds))
+    return "C10:obj:%s:%s:%s:%s" % (OP_GROUP.get(op, op), v["who"], v["why"], ",".join(kinds) or "no-operands")
 
 
 def obj_part(tier, verd, stats, ev, only=None, quiet=False):
@@ -809,7 +838,8 @@ def reproduce(replays, stats=None):
 
 ASSUMPTIONS = [
     "stack part: exact semantics for every valid index and for the out-of-range indices the API fixes (Get -> nil, Replace/Remove -> no-op, SetTop(-(n+1)) empties); Insert(v,0), Insert(v,i<-n), SetTop(i<-(n+1)) only have to keep frame privacy (result list bound to the observation)",
-    "excluded as programmer errors: Pop(k>n) (raises 'register underflow'), Insert(v,i>n+1) (leaves holes), pseudo-indices, a host function returning more values than its list holds, Call with fewer than nargs+1 values",
+    "Insert(v,i>n+1) belongs to the clamped class too: any list of Lua values (no Go nil at any index 1..top)",
+    "excluded as programmer errors: Pop(k>n) (raises 'register underflow'), pseudo-indices, a host function returning more values than its list holds, Call with fewer than nargs+1 values",
     "Insert with a negative index may resolve it before or after the insertion (both admitted; the API does not say)",
     "replay configurations: root host function under one or two Lua/Go layers above 3-7 (or ~100, growing registry) top-level values, the top level itself (base 0), and the same layers inside a coroutine; the two-layer configuration uses Options.MinimizeStackMemory",
     "Lua callees of the call-contract family: plain, results in local registers followed by live non-nil locals (single local / middle local / parameter returned in place) and dirty registers above the results, each through Call, CallByParam, PCall, PCall+errfunc, CallByParam{Protect} and {Protect,Handler} for every (nargs, NRet, produced); GPCall takes host functions only",
